@@ -3,6 +3,7 @@ package main
 import (
 	"fmt"
 	"go/ast"
+	"go/constant"
 	"go/token"
 	"go/types"
 	"sort"
@@ -1661,4 +1662,161 @@ func sameLeafSetByName(a, b []ssa.Value) bool {
 		}
 	}
 	return true
+}
+
+// ---------------------------------------------------------------------------
+// R-BAR-INFIX-ONLY (C18; added after seed C18g): "'|' only infix with priority 0 or above 1000".  In the
+// validation of op/3 the arm for the name '|' lets a request pass only as an infix operator: every path that
+// leaves the arm without raising crosses an edge on which the class of the requested specifier is known to be
+// the infix class (cut-set check on the blocks dominated by the arm's entry).  A condition rewritten as
+// `infix && p == 0 || p > 1000` lets op(1001, fy, '|') through on the second disjunct.
+func ruleBarInfixOnly(c *Ctx, r *Report) {
+	const rule = "R-BAR-INFIX-ONLY"
+	desc := "a request for the operator '|' passes the validation of op/3 only with an infix specifier"
+	fn := c.fn("validateOp")
+	bar := c.global("atomBar")
+	infixK, _ := c.Engine.Members["operatorClassInfix"].(*ssa.NamedConst)
+	if fn == nil || bar == nil || infixK == nil {
+		r.undecided(rule, "anchor:validateOp/atomBar/operatorClassInfix", "-", "locate them", "not found")
+		return
+	}
+	infixV, _ := constInt(infixK.Value)
+	// the arm: the successor taken when <name> == atomBar
+	var entry *ssa.BasicBlock
+	for _, b := range fn.Blocks {
+		bo, ok := ifCond(b).(*ssa.BinOp)
+		if !ok || (bo.Op != token.EQL && bo.Op != token.NEQ) {
+			continue
+		}
+		for _, side := range []ssa.Value{bo.X, bo.Y} {
+			if ld, ok := side.(*ssa.UnOp); ok && ld.X == ssa.Value(bar) {
+				if bo.Op == token.EQL {
+					entry = b.Succs[0]
+				} else {
+					entry = b.Succs[1]
+				}
+			}
+		}
+	}
+	key := fname(fn) + "/bar-arm"
+	if entry == nil {
+		r.undecided(rule, key, c.Pos(fn.Pos()), desc, "the arm for '|' was not recognised")
+		return
+	}
+	isClassCall := func(v ssa.Value) bool {
+		call, ok := v.(*ssa.Call)
+		return ok && call.Call.StaticCallee() != nil && call.Call.StaticCallee().Name() == "class"
+	}
+	// edge (b, i) establishes class == infix?
+	establishes := func(b *ssa.BasicBlock, i int) bool {
+		cond := ifCond(b)
+		neg := false
+		for {
+			u, ok := cond.(*ssa.UnOp)
+			if !ok || u.Op != token.NOT {
+				break
+			}
+			cond, neg = u.X, !neg
+		}
+		x, op, k, ok := cmpConst(cond)
+		if !ok || k != infixV || !isClassCall(x) {
+			return false
+		}
+		eqOnTrue := (op == token.EQL) != neg
+		return (eqOnTrue && i == 0) || (!eqOnTrue && i == 1)
+	}
+	// the walk knows the value of a boolean phi whose incoming edge carries a constant (conditions computed as
+	// values: `bad := a || b; if bad {`), so that it does not follow the branch that contradicts it
+	type state struct {
+		b     *ssa.BasicBlock
+		known string
+	}
+	seen := map[state]bool{}
+	var leak *ssa.BasicBlock
+	var walk func(b *ssa.BasicBlock, from *ssa.BasicBlock, known map[ssa.Value]bool)
+	walk = func(b *ssa.BasicBlock, from *ssa.BasicBlock, known map[ssa.Value]bool) {
+		if leak != nil {
+			return
+		}
+		nk := map[ssa.Value]bool{}
+		for k, v := range known {
+			nk[k] = v
+		}
+		if from != nil {
+			idx := -1
+			for i, p := range b.Preds {
+				if p == from {
+					idx = i
+				}
+			}
+			for _, in := range b.Instrs {
+				phi, ok := in.(*ssa.Phi)
+				if !ok {
+					break
+				}
+				delete(nk, phi)
+				if idx >= 0 {
+					if k, ok := phi.Edges[idx].(*ssa.Const); ok && k.Value != nil && k.Value.Kind() == constant.Bool {
+						nk[phi] = constant.BoolVal(k.Value)
+					} else if v, ok := nk[phi.Edges[idx]]; ok {
+						nk[phi] = v
+					}
+				}
+			}
+		}
+		var ks []string
+		for k, v := range nk {
+			ks = append(ks, fmt.Sprintf("%s=%v", k.Name(), v))
+		}
+		sort.Strings(ks)
+		st := state{b, strings.Join(ks, ",")}
+		if seen[st] {
+			return
+		}
+		seen[st] = true
+		if !(b == entry || entry.Dominates(b)) {
+			leak = b // left the arm without the infix edge
+			return
+		}
+		if _, isRet := b.Instrs[len(b.Instrs)-1].(*ssa.Return); isRet {
+			return // raising (or any return inside the arm) is not "passing"
+		}
+		cond := ifCond(b)
+		neg := false
+		for cond != nil {
+			u, ok := cond.(*ssa.UnOp)
+			if !ok || u.Op != token.NOT {
+				break
+			}
+			cond, neg = u.X, !neg
+		}
+		for i, s := range b.Succs {
+			if establishes(b, i) {
+				continue
+			}
+			if v, ok := nk[cond]; ok && cond != nil && len(b.Succs) == 2 {
+				takesTrue := v != neg
+				if (i == 0) != takesTrue {
+					continue // contradicts what is known about the condition
+				}
+			}
+			// taking this edge teaches the value of the condition itself
+			k2 := nk
+			if cond != nil && len(b.Succs) == 2 {
+				k2 = map[ssa.Value]bool{}
+				for k, v := range nk {
+					k2[k] = v
+				}
+				k2[cond] = (i == 0) != neg
+			}
+			walk(s, b, k2)
+		}
+	}
+	walk(entry, nil, map[ssa.Value]bool{})
+	if leak == nil {
+		r.ok(rule, key, c.at(entry.Instrs[0]), desc, "cut-set check: without the edges on which the class is known infix the arm cannot be left except by a return", true)
+	} else {
+		r.bad(rule, key, c.at(entry.Instrs[0]), desc, "the arm can be left towards "+c.at(leak.Instrs[0])+" on a path that never learnt that the class is infix: a prefix or postfix '|' is accepted for some priority")
+	}
+	r.analysed(rule, fname(fn))
 }
